@@ -15,6 +15,7 @@ rooted heap : `{"objs": [object…], "root": value}` or `{"ops": [op-code…]}` 
 `pickle.iso` {a, b} → bool | "malformed"
 `pickle.nokeycycle` {heap} → bool (class table regenerated from the source)
 `pickle.unready` {ops} → number of key insertions hashing an instance before its BUILD | "malformed"
+`pickle.check` {p, q, ops} → all of the above for one program in one request
 `pickle.hashreads` {} → the generated class table -/
 open Lean Heph.Pickle
 namespace Driver.Pickle
@@ -179,6 +180,29 @@ def handle : Handler := fun op j =>
       match unreadyKeys hashReads (← parseOps (← j.getObjVal? "ops")) with
       | none => pure (res (.str "malformed"))
       | some n => pure (res (jNat n))
+  | "pickle.check" => some do
+      -- everything the harness asks about one (p, real op-codes, q) in one request: parsed and loaded once
+      let ops ← parseOps (← j.getObjVal? "ops")
+      let hp ← parseRooted (← j.getObjVal? "p")
+      let hq ← parseRooted (← j.getObjVal? "q")
+      match hp, hq with
+      | some (h, r), some (h', r') =>
+        let dumpJ := match dump h r with
+          | none => Json.str "fail"
+          | some mops => match firstDiff mops ops 0 with
+            | none => Json.mkObj [("n", jNat mops.length), ("equal", .bool true)]
+            | some (i, m, rl) => Json.mkObj [("n", jNat mops.length), ("equal", .bool false),
+                ("first_diff", jNat i), ("model", (m.map opJ).getD .null), ("real", (rl.map opJ).getD .null)]
+        let (isoLQ, isoLP) := match load ops with
+          | none => (Json.str "malformed", Json.str "malformed")
+          | some (hl, rl) => (Json.bool (isoCheck hl rl h' r'), Json.bool (isoCheck hl rl h r))
+        let unr := match unreadyKeys hashReads ops with
+          | none => Json.str "malformed"
+          | some n => jNat n
+        pure (res (Json.mkObj [("dump", dumpJ), ("iso_load_q", isoLQ), ("iso_load_p", isoLP),
+          ("iso_p_q", .bool (isoCheck h r h' r')), ("nokeycycle", .bool (noKeyCycle hashReads h r)),
+          ("unready", unr)]))
+      | _, _ => pure (res (.str "malformed"))
   | "pickle.hashreads" => some do
       pure (res (Json.arr (Heph.Generated.PickleClasses.table.toArray.map fun e =>
         Json.arr #[.str e.1, .str e.2.1, .bool e.2.2.1, .bool e.2.2.2])))
